@@ -6,6 +6,11 @@
    case (6 progs)              -> (0 ((0 ((y e t)...)) | (1))...)  : map transl_dev  (device-registry sessions)
    case (7 progs)              -> (0 ((out...)...))                : helper session under Python's == and the memoised
                                                                      helpers of the regenerated inventory (cached_gen)
+   case (8 vprogs)             -> (0 (outcome...))                 : vsession vcfg_gen [] (function-variant sessions; the guard
+                                                                     configuration is the one the inventory reads off the source)
+   case (9 srcs ops)           -> (0 ((outs)?...))                 : esession mk_gen srcs ops [] (parse()/emit() sessions over glyph scripts)
+   vprog: (((f (ret...))...) ((v f t)...))   ret: (0) the parameter | (1 t) a literal of type t     outcome: (1) rejected | (0 ((v t)...) ((f t r)...))
+   snode: (0 lcd slot (rows)) | (1 text)     eop: (0 i) parse | (1 i) emit     eout: (0 lcd n slot (vals)) | (1 text)
    hcall: (0 indent var value) _emit_duration_ms | (1 value) _format_float     value: (0 n) | (1 (num den)) | (2 b) | (3 text)
    hout:  (0 indent var value) literal form | (1 indent var expr) run-time form | (2 micro) float literal | (3) raises
    dstmt: (0 x kind) | (1 y x meth)    kind: 0 Servo 1 Pot 2 Serial 3 Ultra 4 Button 5 Led   meth: 0 read 1 read_us 2 measure 3 pressed 4 state 5 bright
@@ -15,6 +20,7 @@
    node:  (0 x t) decl | (1 x) assign | (2 (body...)) if | (3 body) while | (4 v body) for | (5 (body...)) try *)
 From Coq Require Import ZArith List Bool.
 From RV Require Import Base.Wire Base.Text Lang.Order Lang.DevSession Lang.MemoSession Gen.SetSites Lang.OrderSites.
+From RV Require Import Lang.EmitSession Lang.VariantSession Gen.PuritySites Lang.PuritySites.
 Import ListNotations.
 Open Scope Z_scope.
 
@@ -200,6 +206,103 @@ Definition enc_hout (o : hout) : wv :=
   | ORaise => WL [WI 3]
   end.
 
+Definition dec_ret (v : wv) : option ret :=
+  match v with
+  | WL [WI 0] => Some RParam
+  | WL [WI 1; WI t] => Some (RLit t)
+  | _ => None
+  end.
+
+Fixpoint dec_rets (l : list wv) : option (list ret) :=
+  match l with
+  | [] => Some []
+  | x :: r => match dec_ret x, dec_rets r with Some s, Some ss => Some (s :: ss) | _, _ => None end
+  end.
+
+Definition dec_fdef (v : wv) : option fdef :=
+  match v with
+  | WL [f; WL (b :: body)] => match un_text f, dec_rets (b :: body) with Some f, Some b => Some (mk_fdef f b) | _, _ => None end
+  | _ => None
+  end.
+
+Fixpoint dec_fdefs (l : list wv) : option (list fdef) :=
+  match l with
+  | [] => Some []
+  | x :: r => match dec_fdef x, dec_fdefs r with Some s, Some ss => Some (s :: ss) | _, _ => None end
+  end.
+
+Definition dec_vcall (v : wv) : option vcall :=
+  match v with
+  | WL [x; f; WI t] => match un_text x, un_text f with Some x, Some f => Some (mk_vcall x f t) | _, _ => None end
+  | _ => None
+  end.
+
+Fixpoint dec_vcalls (l : list wv) : option (list vcall) :=
+  match l with
+  | [] => Some []
+  | x :: r => match dec_vcall x, dec_vcalls r with Some s, Some ss => Some (s :: ss) | _, _ => None end
+  end.
+
+Definition dec_vprog (v : wv) : option vprog :=
+  match v with
+  | WL [WL ds; WL cs] => match dec_fdefs ds, dec_vcalls cs with Some d, Some c => Some (mk_vprog d c) | _, _ => None end
+  | _ => None
+  end.
+
+Fixpoint dec_vprogs (l : list wv) : option (list vprog) :=
+  match l with
+  | [] => Some []
+  | x :: r => match dec_vprog x, dec_vprogs r with Some s, Some ss => Some (s :: ss) | _, _ => None end
+  end.
+
+Definition enc_outcome (o : outcome) : wv :=
+  match o with
+  | Rejected => WL [WI 1]
+  | Accepted vars fns =>
+      WL [WI 0; WL (map (fun d => WL [wtext (fst d); WI (snd d)]) vars);
+          WL (map (fun v => let '(f, t, r) := v in WL [wtext f; WI t; WI r]) fns)]
+  end.
+
+Definition dec_snode (v : wv) : option snode :=
+  match v with
+  | WL [WI 0; lcd; slot; WL rows] =>
+      match un_text lcd, un_text slot, un_ints rows with Some l, Some s, Some r => Some (SGlyph l s r) | _, _, _ => None end
+  | WL [WI 1; t] => option_map SOther (un_text t)
+  | _ => None
+  end.
+
+Fixpoint dec_snodes (l : list wv) : option (list snode) :=
+  match l with
+  | [] => Some []
+  | x :: r => match dec_snode x, dec_snodes r with Some s, Some ss => Some (s :: ss) | _, _ => None end
+  end.
+
+Fixpoint dec_ssrcs (l : list wv) : option (list (list snode)) :=
+  match l with
+  | [] => Some []
+  | WL p :: r => match dec_snodes p, dec_ssrcs r with Some s, Some ss => Some (s :: ss) | _, _ => None end
+  | _ => None
+  end.
+
+Definition dec_eop (v : wv) : option eop :=
+  match v with
+  | WL [WI 0; WI i] => Some (EParse (Z.to_nat i))
+  | WL [WI 1; WI i] => Some (EEmit (Z.to_nat i))
+  | _ => None
+  end.
+
+Fixpoint dec_eops (l : list wv) : option (list eop) :=
+  match l with
+  | [] => Some []
+  | x :: r => match dec_eop x, dec_eops r with Some s, Some ss => Some (s :: ss) | _, _ => None end
+  end.
+
+Definition enc_eout (o : eout) : wv :=
+  match o with
+  | OGlyph lcd n slot vals => WL [WI 0; wtext lcd; WI n; wtext slot; WL (map WI vals)]
+  | OText t => WL [WI 1; wtext t]
+  end.
+
 Definition run (v : wv) : wv :=
   match v with
   | WL [WI 0; WL items] =>
@@ -231,6 +334,16 @@ Definition run (v : wv) : wv :=
       match dec_hprogs progs with
       | Some ps => wok [WL (map (fun o => WL (map enc_hout o)) (session py_keq cached_gen keep keep [] ps))]
       | None => wbad
+      end
+  | WL [WI 8; WL progs] =>
+      match dec_vprogs progs with
+      | Some ps => wok [WL (map enc_outcome (vsession vcfg_gen [] ps))]
+      | None => wbad
+      end
+  | WL [WI 9; WL srcs; WL ops] =>
+      match dec_ssrcs srcs, dec_eops ops with
+      | Some ss, Some os => wok [WL (map (wopt (fun o => WL (map enc_eout o))) (esession mk_gen ss os []))]
+      | _, _ => wbad
       end
   | _ => wbad
   end.
